@@ -206,7 +206,7 @@ def fas2values(fas, dt):
     a[n // 2 + 1:] = np.flip(np.conj(fas[1:]), axis=0)
     a /= dt
     s = np.fft.ifft(a)
-    npts = int(2 ** (np.log(n) / np.log(2)))
+    npts = n  # all 2 * len(fas) samples; the float power 2 ** log2(n) can land just below n and dropped the last one
     s = s[:npts]
     return s
 
@@ -231,7 +231,7 @@ def fas2signal(fas, dt, stype="signal"):
     a[n // 2 + 1:] = np.flip(np.conj(fas[1:]), axis=0)
     a /= dt
     s = np.fft.ifft(a)
-    npts = int(2 ** (np.log(n) / np.log(2)))
+    npts = n  # all 2 * len(fas) samples; the float power 2 ** log2(n) can land just below n and dropped the last one
     s = s[:npts]
     if stype == 'signal':
         return Signal(s, dt)
